@@ -11,6 +11,8 @@ func init() {
 
 // C03 — DID control: only a holder of a current authentication key changes a DID.
 func checkC03(p *Prog, r *Report) {
+	checkNoDroppedErrors(p, r, "C03", "x/did/keeper, x/did/types", func(fn *ssa.Function) bool { return InPkgs(fn, "x/did/keeper", "x/did/types") })
+	checkNoNilWrap(p, r, "C03", "x/did/keeper, x/did/types", func(fn *ssa.Function) bool { return InPkgs(fn, "x/did/keeper", "x/did/types") })
 	r.Explain = "Decided statically: D1 every write to the DID store in a message handler is dominated on all paths by proof(...).err == nil, where `proof` is (by role) the module function from which PubKey.VerifySignature is reachable; D2 the proof's document argument is the *stored* document read under the key being written (update/deactivate) or the submitted, to-be-stored document (create), the signed datum is the document that gets stored (or DIDDocument{Id: did} for deactivation), key id and signature are the message's; D3 inside the proof function every nil-error return is dominated by: key found via doc.Authentications (no other relationship), key type ∈ {ES256K_2019, ES256K_2018} exactly, public key decoded from that method, verify(...).ok; D4 the verifier returns true only under VerifySignature(Marshal(DataWithSeq{Marshal(data), seq}), sig); D5 the lookup reports found only under id equality; D6 only handlers and InitGenesis call the setter. The did store key is handed to the did keeper constructor only."
 	r.NotDec = []string{"secp256k1 verification itself (cometbft)", "base58 decoding", "gogoproto marshalling determinism"}
 	r.Trusted = []string{"cometbft crypto/secp256k1", "btcutil/base58", "gogoproto"}
@@ -25,13 +27,15 @@ func checkC03(p *Prog, r *Report) {
 	checkSignBytesBindMessage(p, r, "C03", "x/did")
 	// stored documents are what handlers wrote: code that rewrites them in a loop (listing, export, migration) decodes each entry
 	// into a fresh variable — a reused target merges one DID's keys into the next one's document
-	r.Count("in-loop-decode-targets(x/did)", checkLoopFreshDecode(p, r, "C03", func(fn *ssa.Function) bool { return InPkgs(fn, "x/did") }))
+	r.Count("in-loop-decode-targets(x/did)", checkLoopFreshDecode(p, r, "C03", func(fn *ssa.Function) bool { return InPkgs(fn, "x/did/keeper", "x/did/types") }))
 	checkInitGenesisCallers(p, r, "C03", "x/did")
 	wireKeyOwnership(p, r, BuildWire(p), "C03", "did", []string{"x/did/keeper.NewKeeper"}, "DID documents")
 }
 
 // C04 — DID sequence strictly monotonic; no replay.
 func checkC04(p *Prog, r *Report) {
+	checkNoDroppedErrors(p, r, "C04", "x/did/keeper, x/did/types", func(fn *ssa.Function) bool { return InPkgs(fn, "x/did/keeper", "x/did/types") })
+	checkNoNilWrap(p, r, "C04", "x/did/keeper, x/did/types", func(fn *ssa.Function) bool { return InPkgs(fn, "x/did/keeper", "x/did/types") })
 	r.Explain = "Decided statically: D1 the sequence stored by a creating handler is the constant 0 and the proof is made over 0; by a modifying handler it is proof(...)[0]; D2 the proof consumes the Sequence field of the entry read under the key being written, the proof function returns the verifier's result unchanged, the verifier returns seq+1 for the same seq that went into the signed bytes, and the signed bytes contain the sequence; D3 the query returns the stored entry unmodified; D4 entries are written only by handlers under this schema and by InitGenesis. Replay rejection follows on paper (see DESIGN.md C04). The did store key is handed to the did keeper constructor only."
 	r.NotDec = []string{"signature unforgeability / non-malleability", "uint64 wrap-around"}
 	r.Trusted = []string{"cometbft crypto/secp256k1"}
@@ -54,6 +58,8 @@ func checkC04(p *Prog, r *Report) {
 
 // C05 — created at most once; deactivation permanent.
 func checkC05(p *Prog, r *Report) {
+	checkNoDroppedErrors(p, r, "C05", "x/did/keeper, x/did/types", func(fn *ssa.Function) bool { return InPkgs(fn, "x/did/keeper", "x/did/types") })
+	checkNoNilWrap(p, r, "C05", "x/did/keeper, x/did/types", func(fn *ssa.Function) bool { return InPkgs(fn, "x/did/keeper", "x/did/types") })
 	r.Explain = "Decided statically: D1 with the emptiness/deactivation predicates expanded by path enumeration into the atoms {Document==nil, Document.Id==\"\", Sequence==0}, the path condition at the write of a creating handler excludes an active entry and a tombstone (truth table), and that of a modifying handler entails an active entry; D2 the tombstone's sequence is the proof's result (stored+1); D3 nothing deletes from the DID store and the query succeeds only for active entries; D4 export/import/list loops have no conditional skip and import stores entries untransformed. The did store key is handed to the did keeper only; the query looks up exactly the base64-decoded request field."
 	r.NotDec = []string{"JSON/proto round trip of an empty sub-message", "restart persistence (C10)"}
 	r.Trusted = []string{"cosmos-sdk store"}
@@ -77,6 +83,8 @@ func checkC05(p *Prog, r *Report) {
 
 // C11 — a DID resolves to a document about itself.
 func checkC11(p *Prog, r *Report) {
+	checkNoDroppedErrors(p, r, "C11", "x/did/keeper, x/did/types", func(fn *ssa.Function) bool { return InPkgs(fn, "x/did/keeper", "x/did/types") })
+	checkNoNilWrap(p, r, "C11", "x/did/keeper, x/did/types", func(fn *ssa.Function) bool { return InPkgs(fn, "x/did/keeper", "x/did/types") })
 	r.Explain = "Decided statically (presence on every path): D1 for every handler that stores a caller-supplied document under msg.Did, the fact msg.Did == msg.Document.Id is established before the write in the handler or on every nil-returning path of the message's ValidateBasic (which baseapp and the authz/gov/group wrappers run before any handler); a deactivation signs DIDDocument{Id: msg.Did} and stores a tombstone, so it is bound by construction; D2 the signed datum is the stored document, so the proof covers the id. D2 the query looks up exactly the base64-decoded request field (no transformation between the request and the store key); the did store key is handed to the did keeper only."
 	r.NotDec = []string{"hand-written genesis files (key vs document id is not validated at import; reported as a note)"}
 	r.Trusted = []string{"baseapp runs ValidateBasic before handlers (also for authz/gov/group wrapped messages)"}
